@@ -63,11 +63,22 @@ package quicutils
 
 // C06: removing QUIC header protection rewrites, in place, exactly the first byte of the packet and the
 // four packet-number bytes (trusted: the AEAD/HKDF code is not modelled); everything else is read only.
-//@ func DecryptQuic_
+// (what the AEAD/HKDF code does to the bytes is trusted; the slicing of the packet around it is checked: the
+// header-protection sample and the payload lie inside THIS packet - between the packet-number offset and the
+// packet's own end - so a short packet followed by other bytes is "unexpected EOF", never an out-of-range slice)
+//@ func (*Keys).HeaderProtection_
 //@   trusted
-//@   requires 0 <= pnOffset && pnOffset + 4 <= len(buf)
+//@   requires len(sample) == 16 && len(potentialPacketNumber) == 4 && firstByte != nil
+//@   modifies *
+//@   ensures err == nil ==> 1 <= pnLen && pnLen <= 4 && len(packetNumber) == pnLen
+//@ func DecryptQuic_
+//@   requires 1 <= pnOffset && pnOffset + 4 <= len(buf) && 0 <= blockEnd && blockEnd <= len(buf) && 5 <= len(buf)
+//@   dyncalls noeffect
+//@   trustframe
 //@   modifies elems(buf)
-//@   ensures forall k int {buf[k]} :: 0 < k && k < len(buf) && (k < pnOffset || k >= pnOffset + 4) ==> buf[k] == old(buf[k])
+//@   assumed-ensures forall k int {buf[k]} :: 0 < k && k < len(buf) && (k < pnOffset || k >= pnOffset + 4) ==> buf[k] == old(buf[k])
+//@   loop 1
+//@     invariant 1 <= pnLen && pnLen <= 4
 
 // C06: reassembly of CRYPTO frames. When two fragments overlap or touch, the merged fragment carries, at
 // every stream position, the byte of the fragment that covers it (the earlier fragment wins inside the
